@@ -194,16 +194,16 @@ func main() {
 
 	r.FloorDistinct("oneof_states_sampled", int64(len(oneofs)))
 	r.FloorDistinct("optional_field_states_sampled", int64(len(opts)))
-	r.FloorCount("codec_round_trips", int64(r.Pick(15000, 1500000)))
-	r.FloorCount("recycled_decodes", int64(r.Pick(5000, 500000)))
-	r.FloorCount("pool_returned_same_object", int64(r.Pick(500, 50000)))
-	r.FloorCount("compressor_round_trips", int64(r.Pick(600, 25000)))
-	r.FloorCount("compressor_round_trips_ge_1MiB", int64(r.Pick(30, 500)))
+	r.FloorCount("codec_round_trips", int64(r.Pick(15000, 150000)))
+	r.FloorCount("recycled_decodes", int64(r.Pick(5000, 60000)))
+	r.FloorCount("pool_returned_same_object", int64(r.Pick(500, 6000)))
+	r.FloorCount("compressor_round_trips", int64(r.Pick(600, 6000)))
+	r.FloorCount("compressor_round_trips_ge_1MiB", int64(r.Pick(30, 300)))
 	r.FloorDistinct("compressor_goroutine_counts", 3)
-	r.FloorCount("streams", int64(r.Pick(140, 4500)))
-	r.FloorCount("streams_with_boundary_inside_length_prefix", int64(r.Pick(40, 1200)))
+	r.FloorCount("streams", int64(r.Pick(140, 1700)))
+	r.FloorCount("streams_with_boundary_inside_length_prefix", int64(r.Pick(40, 450)))
 	r.FloorDistinct("stream_variants", int64(r.Pick(12, 20)))
-	r.FloorNontrivial(int64(r.Pick(300, 20000)))
+	r.FloorNontrivial(int64(r.Pick(300, 12000)))
 	r.FloorCount("oracles_agree", 1)
 	if r.Get("oracle_disagreements") == 0 {
 		r.Count("oracles_agree", 1)
